@@ -67,6 +67,16 @@ Proof.
       intros ct [c [a [p [E [H1 [H2 H3]]]]]]. exists c, a, p. repeat split; try assumption; lia.
 Qed.
 
+Lemma skipn_app_exact_len {A} (a b : list A) n : length a = n -> skipn n (a ++ b) = b.
+Proof. intros <-. rewrite skipn_app, Nat.sub_diag, skipn_all. reflexivity. Qed.
+
+Local Transparent nonce_of.
+Lemma nonce_tail iv c : (4 <= length iv)%nat -> skipn 4 (nonce_of iv c) = skipn 4 iv.
+Proof.
+  intro H. unfold nonce_of. apply skipn_app_exact_len. apply be_enc_length.
+Qed.
+Local Opaque nonce_of.
+
 (* ---- what acceptance by an encrypting receiver means ------------------- *)
 Lemma recv_we_enc_inv B f' B1 d' fl' k :
   enc_active B = true -> key B = Some k ->
@@ -117,23 +127,42 @@ Lemma flagmax_lt : FlagMaxRecvWE < 256. Proof. vm_compute. reflexivity. Qed.
 
 (* what the attacker may use: ciphertexts of this direction with an already-used counter,
    or ciphertexts of the transcript still to be delivered *)
-Definition known_ok (k iv : bytes) (j : N) (fs : list frame) (K : ctext -> Prop) : Prop :=
-  forall ct, K ct -> (exists c a p, ct = seal k (nonce_of iv c) a p /\ c < j) \/ In ct (cts_of fs).
+(* ciphertexts under the same key that do NOT belong to this direction: typically what the
+   receiver itself sent (reflection), or the other direction of a session resumed from the same
+   cache entry. They are described by that direction's base IV and the two digests its first
+   frame was bound to; only counter 0 carries first-frame associated data. *)
+Record other_dir := { o_iv : bytes; o_ds : digest; o_dr : digest }.
+Definition foreign (k : bytes) (o : other_dir) (ct : ctext) : Prop :=
+  exists c a p, ct = seal k (nonce_of (o_iv o) c) a p /\
+                (c = 0 -> exists h, a = AadFirst (o_ds o) (o_dr o) h) /\
+                (0 < c -> exists h, a = AadHdr h).
+(* what makes such ciphertexts useless at receiver B of direction A -> B: the two base IVs
+   differ beyond the counter word (96 random bits), and - only relevant while B still waits for
+   the first frame - the foreign first frame is bound to other digests than B expects *)
+Definition reflect_safe (A B : stream) (o : other_dir) : Prop :=
+  (4 <= length (enc_iv A))%nat /\ (4 <= length (o_iv o))%nat /\
+  skipn 4 (o_iv o) <> skipn 4 (enc_iv A) /\
+  (dec_ctr B = 0 -> o_ds o <> dg_value (recv_dg B) \/ o_dr o <> dg_value (send_dg B)).
+(* no foreign traffic at all *)
+Definition no_other : other_dir := {| o_iv := []; o_ds := DZero; o_dr := DZero |}.
+
+Definition known_ok (k iv : bytes) (j : N) (fs : list frame) (o : other_dir) (K : ctext -> Prop) : Prop :=
+  forall ct, K ct -> (exists c a p, ct = seal k (nonce_of iv c) a p /\ c < j) \/ In ct (cts_of fs) \/ foreign k o ct.
 
 Definition uses_only (K : ctext -> Prop) (fs' : list frame) : Prop :=
   forall f' ivo ct, In f' fs' -> f_body f' = Ct ivo ct -> K ct.
 
 (* ---- the core: an accepted frame IS the sender's next frame ------------- *)
-Lemma accepted_is_next A B k K tr fs A' f' B1 d' fl' :
-  paired A B -> key A = Some k -> encrypted A = true -> wf_send A ->
-  sent A tr fs A' -> known_ok k (enc_iv A) (enc_ctr A) fs K ->
+Lemma accepted_is_next A B k o K tr fs A' f' B1 d' fl' :
+  paired A B -> key A = Some k -> encrypted A = true -> wf_send A -> reflect_safe A B o ->
+  sent A tr fs A' -> known_ok k (enc_iv A) (enc_ctr A) fs o K ->
   (forall ivo ct, f_body f' = Ct ivo ct -> K ct) ->
   recv_frame_we B f' = (B1, SOk (d', fl')) ->
   exists d fl A1 f tr1 fs1,
     tr = (d, fl) :: tr1 /\ fs = f :: fs1 /\ send_frame A d fl = (A1, SOk f) /\ sent A1 tr1 fs1 A' /\
     (fl = EndFlagPartial \/ fl = EndFlagComplete) /\ f' = f.
 Proof.
-  intros P Hk He Hwf Hsent HK Huse Hr.
+  intros P Hk He Hwf Hsafe Hsent HK Huse Hr.
   pose proof (enc_active_paired _ _ P) as Hact.
   assert (HactA : enc_active A = true) by (unfold enc_active; rewrite Hk, He; reflexivity).
   rewrite HactA in Hact. symmetry in Hact.
@@ -161,9 +190,26 @@ Proof.
       apply nonce_of_inj in En; [|lia|lia]. split; [exact En|]. rewrite Hd. symmetry. apply Piv. exact Hpos. }
   destruct Hwf as [Hwf1 Hle].
   (* old ciphertexts cannot be accepted *)
-  destruct (HK _ Hkn) as [[c [a [p [Ect Hclt]]]]|Hin].
+  destruct (HK _ Hkn) as [[c [a [p [Ect Hclt]]]]|[Hin|Hfor]].
   { exfalso. rewrite Ect in Hopen. apply seal_inj in Hopen as [_ [En _]].
     destruct (Hnonce c ltac:(lia) Hle En ltac:(lia)) as [Hceq _]. lia. }
+  2:{ (* a ciphertext of another direction under the same key: never accepted *)
+    exfalso. destruct Hfor as [c [a [p [Ect [Ha0 Hapos]]]]].
+    destruct Hsafe as [Hl1 [Hl2 [Htail Hdig]]].
+    rewrite Ect in Hopen. apply seal_inj in Hopen as [_ [En [Ea _]]].
+    destruct Hcase as [[H0 [_ Hdl]]|[Hn0 [_ Hd]]].
+    - (* B still expects the first frame of its direction: first-frame associated data *)
+      assert (Hfin : fin_recv_aad B = false) by (rewrite <- Pf; apply Hwf1; exact H0).
+      unfold aad_recv in Ea. rewrite Hfin in Ea.
+      destruct (N.eq_dec c 0) as [Hc0|Hcn].
+      + destruct (Ha0 Hc0) as [h Eh]. rewrite Eh in Ea. injection Ea as E1 E2 _.
+        rewrite <- Pc in Hdig. destruct (Hdig H0) as [Hd1|Hd2]; congruence.
+      + destruct (Hapos ltac:(lia)) as [h Eh]. rewrite Eh in Ea. discriminate.
+    - (* later frames: the receiver's base IV is the sender's; the foreign nonce has another tail *)
+      assert (Hpos : 0 < enc_ctr A) by lia.
+      rewrite Hd, <- (Piv Hpos) in En.
+      apply (f_equal (skipn 4)) in En. rewrite !nonce_tail in En by assumption.
+      apply Htail. exact En. }
   (* so it is a ciphertext of the pending transcript *)
   destruct Hsent as [A|A d fl A1 f tr1 fs1 A2 Hflok Hs Hrest]; [destruct Hin|].
   destruct (wf_send_step _ _ _ _ _ _ Hk He (conj Hwf1 Hle) Hs) as [Hwf1' [Hk1 [He1 [Hiv1 [Hc1 [Hlt Hf]]]]]].
@@ -223,29 +269,37 @@ Inductive prefix {A} : list A -> list A -> Prop :=
 | prefix_nil l : prefix [] l
 | prefix_cons x a b : prefix a b -> prefix (x :: a) (x :: b).
 
-Lemma known_ok_step k iv j f fs K d fl a :
+Lemma known_ok_step k iv j f fs o K d fl a :
   f = {| f_flag := fl; f_body := Ct (if j =? 0 then Some iv else None) (seal k (nonce_of iv j) a d) |} ->
-  known_ok k iv j (f :: fs) K -> known_ok k iv (j + 1) fs K.
+  known_ok k iv j (f :: fs) o K -> known_ok k iv (j + 1) fs o K.
 Proof.
-  intros Hf HK ct Hct. destruct (HK _ Hct) as [[c [a0 [p [E Hlt]]]]|Hin].
+  intros Hf HK ct Hct. destruct (HK _ Hct) as [[c [a0 [p [E Hlt]]]]|[Hin|Hfor]].
   - left. exists c, a0, p. split; [exact E|lia].
   - unfold cts_of in Hin. cbn [flat_map] in Hin. rewrite Hf in Hin. cbn [f_body app] in Hin.
-    destruct Hin as [<-|Hin]; [|right; exact Hin].
+    destruct Hin as [<-|Hin]; [|right; left; exact Hin].
     left. eexists _, _, _. split; [reflexivity|lia].
+  - right; right; exact Hfor.
 Qed.
 
-Lemma prefix_frames fs' : forall A B k K tr fs A',
-  duplex A B -> key A = Some k -> encrypted A = true -> wf_send A ->
-  sent A tr fs A' -> known_ok k (enc_iv A) (enc_ctr A) fs K -> uses_only K fs' ->
+Lemma reflect_safe_step A B o A1 B2 :
+  reflect_safe A B o -> enc_iv A1 = enc_iv A -> dec_ctr B2 <> 0 -> reflect_safe A1 B2 o.
+Proof.
+  intros [H1 [H2 [H3 _]]] Hiv Hc. unfold reflect_safe. rewrite Hiv.
+  repeat split; try assumption. intro H0. contradiction.
+Qed.
+
+Lemma prefix_frames fs' : forall A B k o K tr fs A',
+  duplex A B -> key A = Some k -> encrypted A = true -> wf_send A -> reflect_safe A B o ->
+  sent A tr fs A' -> known_ok k (enc_iv A) (enc_ctr A) fs o K -> uses_only K fs' ->
   prefix (snd (recv_frames B fs')) tr.
 Proof.
-  induction fs' as [|f' r' IH]; intros A B k K tr fs A' D Hk He Hwf Hsent HK Huse.
+  induction fs' as [|f' r' IH]; intros A B k o K tr fs A' D Hk He Hwf Hsafe Hsent HK Huse.
   - constructor.
   - cbn [recv_frames]. destruct (recv_frame_we B f') as [B1 [[d' fl']|e]] eqn:Er; [|constructor].
     destruct D as [P PB].
     assert (Huse1 : forall ivo ct, f_body f' = Ct ivo ct -> K ct).
     { intros ivo ct Hb. eapply Huse; [left; reflexivity|exact Hb]. }
-    destruct (accepted_is_next _ _ _ _ _ _ _ _ _ _ _ P Hk He Hwf Hsent HK Huse1 Er)
+    destruct (accepted_is_next _ _ _ _ _ _ _ _ _ _ _ _ P Hk He Hwf Hsafe Hsent HK Huse1 Er)
       as [d [fl [A1 [f [tr1 [fs1 [-> [-> [Hs [Hrest [Hflok ->]]]]]]]]]]].
     assert (Hfl : fl <= FlagMaxRecvWE) by (destruct Hflok as [-> | ->]; vm_compute; discriminate).
     destruct (send_recv_frame _ _ _ _ _ _ (conj P PB) Hfl Hs) as [B2 [Hr2 D2]].
@@ -253,11 +307,14 @@ Proof.
     destruct (wf_send_step _ _ _ _ _ _ Hk He Hwf Hs) as [Hwf1 [Hk1 [He1 [Hiv1 [Hc1 [Hlt Hf]]]]]].
     destruct (recv_frames B2 r') as [B3 l] eqn:Erest. cbn [snd].
     constructor.
-    assert (HK1 : known_ok k (enc_iv A1) (enc_ctr A1) fs1 K).
+    assert (HK1 : known_ok k (enc_iv A1) (enc_ctr A1) fs1 o K).
     { rewrite Hiv1, Hc1. eapply known_ok_step; [exact Hf|exact HK]. }
+    assert (Hsafe1 : reflect_safe A1 B2 o).
+    { eapply reflect_safe_step; [exact Hsafe|exact Hiv1|].
+      destruct D2 as [[_ _ Pc2 _ _ _ _ _] _]. rewrite <- Pc2, Hc1. lia. }
     assert (Huse2 : uses_only K r').
     { intros g ivo ct Hin Hb. eapply Huse; [right; exact Hin|exact Hb]. }
-    specialize (IH _ _ _ _ _ _ _ D2 Hk1 He1 Hwf1 Hrest HK1 Huse2). rewrite Erest in IH. exact IH.
+    specialize (IH _ _ _ _ _ _ _ _ D2 Hk1 He1 Hwf1 Hsafe1 Hrest HK1 Huse2). rewrite Erest in IH. exact IH.
 Qed.
 
 (* the frames accepted before the first rejection *)
@@ -274,42 +331,35 @@ Fixpoint accepted (s : stream) (fs : list frame) : list frame :=
 (* detection: what is accepted is a prefix of the genuine wire itself, so the first frame that
    differs from the genuine frame at its position (altered, injected, dropped, duplicated,
    reordered, replayed, truncated) is rejected *)
-Lemma accepted_prefix_of_wire fs' : forall A B k K tr fs A',
-  duplex A B -> key A = Some k -> encrypted A = true -> wf_send A ->
-  sent A tr fs A' -> known_ok k (enc_iv A) (enc_ctr A) fs K -> uses_only K fs' ->
+Lemma accepted_prefix_of_wire fs' : forall A B k o K tr fs A',
+  duplex A B -> key A = Some k -> encrypted A = true -> wf_send A -> reflect_safe A B o ->
+  sent A tr fs A' -> known_ok k (enc_iv A) (enc_ctr A) fs o K -> uses_only K fs' ->
   prefix (accepted B fs') fs.
 Proof.
-  induction fs' as [|f' r' IH]; intros A B k K tr fs A' D Hk He Hwf Hsent HK Huse.
+  induction fs' as [|f' r' IH]; intros A B k o K tr fs A' D Hk He Hwf Hsafe Hsent HK Huse.
   - constructor.
   - cbn [accepted]. destruct (recv_frame_we B f') as [B1 [[d' fl']|e]] eqn:Er; [|constructor].
     destruct D as [P PB].
     assert (Huse1 : forall ivo ct, f_body f' = Ct ivo ct -> K ct).
     { intros ivo ct Hb. eapply Huse; [left; reflexivity|exact Hb]. }
-    destruct (accepted_is_next _ _ _ _ _ _ _ _ _ _ _ P Hk He Hwf Hsent HK Huse1 Er)
+    destruct (accepted_is_next _ _ _ _ _ _ _ _ _ _ _ _ P Hk He Hwf Hsafe Hsent HK Huse1 Er)
       as [d [fl [A1 [f [tr1 [fs1 [-> [-> [Hs [Hrest [Hflok ->]]]]]]]]]]].
     assert (Hfl : fl <= FlagMaxRecvWE) by (destruct Hflok as [-> | ->]; vm_compute; discriminate).
     destruct (send_recv_frame _ _ _ _ _ _ (conj P PB) Hfl Hs) as [B2 [Hr2 D2]].
     rewrite Hr2 in Er. injection Er as <- <- <-.
     destruct (wf_send_step _ _ _ _ _ _ Hk He Hwf Hs) as [Hwf1 [Hk1 [He1 [Hiv1 [Hc1 [Hlt Hf]]]]]].
     constructor.
-    assert (HK1 : known_ok k (enc_iv A1) (enc_ctr A1) fs1 K).
+    assert (HK1 : known_ok k (enc_iv A1) (enc_ctr A1) fs1 o K).
     { rewrite Hiv1, Hc1. eapply known_ok_step; [exact Hf|exact HK]. }
+    assert (Hsafe1 : reflect_safe A1 B2 o).
+    { eapply reflect_safe_step; [exact Hsafe|exact Hiv1|].
+      destruct D2 as [[_ _ Pc2 _ _ _ _ _] _]. rewrite <- Pc2, Hc1. lia. }
     assert (Huse2 : uses_only K r').
     { intros g ivo ct Hin Hb. eapply Huse; [right; exact Hin|exact Hb]. }
-    exact (IH _ _ _ _ _ _ _ D2 Hk1 He1 Hwf1 Hrest HK1 Huse2).
+    exact (IH _ _ _ _ _ _ _ _ D2 Hk1 He1 Hwf1 Hsafe1 Hrest HK1 Huse2).
 Qed.
-
-Lemma skipn_app_exact_len {A} (a b : list A) n : length a = n -> skipn n (a ++ b) = b.
-Proof. intros <-. rewrite skipn_app, Nat.sub_diag, skipn_all. reflexivity. Qed.
 
 (* ---- reflection: a stream does not accept its own frames ------------------ *)
-Local Transparent nonce_of.
-Lemma nonce_tail iv c : (4 <= length iv)%nat -> skipn 4 (nonce_of iv c) = skipn 4 iv.
-Proof.
-  intro H. unfold nonce_of. apply skipn_app_exact_len. apply be_enc_length.
-Qed.
-Local Opaque nonce_of.
-
 (* A frame B itself sealed (at any counter c of its send direction) is rejected when it is
    handed back to B, with any header and IV prefix, provided the two directions' base IVs
    differ beyond their leading counter word, or - for B's first frame - provided B's send and
